@@ -9,4 +9,7 @@ W=$(mktemp -d /tmp/verif-setup-XXXX)
 trap 'rm -rf $W' EXIT
 ./build.sh $W
 $W/verif-sim smoke 1 >/dev/null
+# self-tests on a sample: conformance of the channel/timer/mutex model and
+# determinism across processes, chunkings and GOMAXPROCS (exit 2 on failure)
+../check selftest --cases 12 | tail -7
 echo "setup ok"
